@@ -150,7 +150,7 @@ pub fn gen(id: &str, r: &mut Rng, out: &mut Vec<Case>) {
                     out.push(case(*r.pick(&["lround", "llround"]), '-', flags_in(r), vec![d(x)]));
                 }
                 _ => {
-                    let x = if r.chance(1, 12) { operand(r) } else { int_boundary_operand(r) };
+                    let x = if r.chance(1, 12) { operand(r) } else if r.chance(1, 4) { let (c, k) = near_tie_coeff(r); enc(r.chance(1, 2), c, -(k as i32)) } else { int_boundary_operand(r) };
                     let fl = flags_in(r);
                     // all variants of one width/signedness on the same operand
                     let base = 10 * r.below(4) as usize;
@@ -170,9 +170,10 @@ pub fn gen(id: &str, r: &mut Rng, out: &mut Vec<Case>) {
             }
         }
         "C08" => {
-            let x = match r.below(8) {
+            let x = match r.below(10) {
                 0 => operand(r),
                 1 | 2 | 3 => int_boundary_operand(r),
+                8 | 9 => { let (c, k) = near_tie_coeff(r); enc(r.chance(1, 2), c, -(k as i32)) }
                 _ => { // (q, -e) grid with tails
                     let q = 1 + r.below(34) as u32;
                     let drop = r.below(40) as i32;
@@ -192,6 +193,12 @@ pub fn gen(id: &str, r: &mut Rng, out: &mut Vec<Case>) {
                        for op in ["quantum", "quantexp", "llquantexp"] { out.push(case(op, '-', if op == "quantum" { 0 } else { fl }, vec![d(x)])); } }
                 1 => { let (x, y) = cmp_pair(r); out.push(case("same_quantum", '-', 0, vec![d(x), d(y)])); }
                 2 => out.push(case("quantize", mode_tok(r), flags_in(r), vec![d(operand(r)), d(operand(r))])),
+                3 | 4 => { // near-tie tails at every number of dropped digits
+                    let (c, k) = near_tie_coeff(r);
+                    let e = exponent(r).clamp(EMIN, EMAX - 34);
+                    let y = enc(r.chance(1, 2), coeff_upto(r, 34), e + k as i32);
+                    out.push(case("quantize", mode_tok(r), flags_in(r), vec![d(enc(r.chance(1, 2), c, e)), d(y)]));
+                }
                 _ => {
                     let x = finite_or_zero(r);
                     let (_, c, e) = ((x >> 127) != 0, x & ((1u128 << 113) - 1), (((x >> 113) & 0x3fff) as i32) - 6176);
@@ -229,6 +236,13 @@ pub fn gen(id: &str, r: &mut Rng, out: &mut Vec<Case>) {
                 2 => out.push(case("frexp", '-', 0, vec![d(x)])),
                 _ => {
                     let e = (((x >> 113) & 0x3fff) as i64) - 6176;
+                    if r.chance(1, 6) {
+                        let (c, k) = near_tie_coeff(r);
+                        let e0 = r.range(-6176, 6000) as i32;
+                        let n = (-6176 - k as i32) - e0;     // scaled exponent = eMin - k: exactly k digits are rounded away
+                        out.push(case(*r.pick(&["scaleb", "ldexp", "scalebln"]), mode_tok(r), flags_in(r), vec![d(enc(r.chance(1, 2), c, e0)), Val::I(n as i128)]));
+                        return;
+                    }
                     let n: i64 = match r.below(8) {
                         0 => r.range(-50, 50),
                         1 | 2 => 6111 - e + r.range(-45, 45),
@@ -290,7 +304,10 @@ pub fn gen(id: &str, r: &mut Rng, out: &mut Vec<Case>) {
             }
         }
         "C13" => {
-            let x = match r.below(6) { 0 => noncanonical_finite(r), 1 => infinity(r), 2 => nan(r), 3 => r.u128(), 4 => zero(r), _ => {
+            let x = match r.below(8) { 0 => noncanonical_finite(r), 1 => infinity(r), 2 => nan(r), 3 => r.u128(), 4 => zero(r),
+                6 => scaled_boundary_operand(r),
+                7 => enc(r.chance(1, 2), coeff_upto(r, 34), EMIN + r.below(45) as i32),
+                _ => {
                 // around the normal/subnormal boundary
                 let q = 1 + r.below(34) as u32;
                 enc(r.chance(1, 2), coeff(r, q), -6143 - q as i32 + 1 + r.range(-2, 2) as i32)
